@@ -55,7 +55,7 @@ DESIGN_REF = "DESIGN.md section 5, C07; design/C07.md"
 P = "XalanModel.Props.C07."
 THEOREMS = [P + t for t in (
     "noninterference", "noninterference_readonly", "interleaving_eq_sequential", "sequential_is_solo", "race_free",
-    "execution_readonly_partial", "tableMachine_writesOnlySync", "table_race_free_partial",
+    "execution_readonly_partial", "transform_touches_no_process_table_partial", "tableMachine_writesOnlySync", "table_race_free_partial",
     "table_outputs_schedule_independent", "lazy_listhead_interference_counterexample",
     "forced_listhead_schedule_independent", "nullhead_schedule_independent", "nopool_counterexample", "mapping_mode_counterexample")]
 
@@ -405,6 +405,7 @@ def run(ctx):
     for sid, sh in sheets.items():
         if sh.get("single"):
             runs.append(("f_" + sid, ["%s:%s0.%s:b" % (sid, fl, m) for fl in ("ids", "plain", "bare") for m in SAFE_MODES]))
+            runs.append(("Cf_" + sid, ["%s:ids0.default:b" % sid, "%s:bare0.xerces-default:b" % sid, "%s:plain0.xerces-ts:b" % sid]))
     gsheets = [s for s in sheets if s.startswith("s")]
     for i in range(nruns):
         nj = r.range(1, 4)
@@ -414,10 +415,15 @@ def run(ctx):
             d = r.choice(safe_sources)
             k = r.weighted([("b", 6), ("s", 2), ("d", 2)])
             jobs.append("%s:%s:%s" % (s, d, k))
-        runs.append(("r%d" % i, jobs))
+        runs.append((("Cr%d" if i % 2 else "r%d") % i, jobs))
 
     def run_line(label, jobs, nt, rd):
-        return "run %s %d %d %d %s" % (label, nt, rd, ctx.seed, " ".join(jobs))
+        # labels starting with "C": every transformer gets a private configuration (own extension function, parameter,
+        # listeners, resolver, error handler) -- see the harness
+        return "run %s %d %d %d %s%s" % (label, nt, rd, ctx.seed, "+cfg " if label.startswith("C") else "", " ".join(jobs))
+
+    def xl(label):
+        return "Cx" if label.startswith("C") else "x"
 
     def exec_runs(exe, tsan, runs, nt, rd, tag):
         """one harness process per chunk of runs (so that a TSan report can be attributed to a chunk cheaply)"""
@@ -439,9 +445,9 @@ def run(ctx):
             res.append({"runs": part, "parsed": parsed, "err": err, "rc": rc})
         return res
 
-    def single_job_reports(job, nt, rd, tag):
+    def single_job_reports(job, nt, rd, tag, label="x"):
         s, d, _ = job.split(":")
-        lines = decl_lines(sheets, sources, [s], [d]) + [run_line("x", [job], nt, rd)]
+        lines = decl_lines(sheets, sources, [s], [d]) + [run_line(xl(label), [job], nt, rd)]
         out, err, rc = run_harness(h_tsan, lines, work, True, tag)
         return parse_reports(err), out, err, rc
 
@@ -466,11 +472,11 @@ def run(ctx):
                                 jr = x
                     done = jr is not None and jr["equal"] == jr["total"] and jr["total"] > 0
                     nontriv = done and any(not f.startswith("message") and f != "misc" for f in fac)
-                    keyt = (",".join(sorted(fac)), hash(read_text(sheets[s]["path"])), sources[d]["flavour"], sources[d]["mode"], k)
+                    keyt = (",".join(sorted(fac)), hash(read_text(sheets[s]["path"])), sources[d]["flavour"], sources[d]["mode"], k, label.startswith("C"))
                     ctx.case(nontrivial_key=str(keyt) if nontriv else None,
                              sample={"facilities": fac, "source": sources[d]["flavour"], "mode": sources[d]["mode"], "kind": k,
                                      "threads": nt, "sequential": "rc=%s len=%s" % (jr["rc"], jr["len"]) if jr else None} if len(ctx.samples) < 6 else None,
-                             cls="%s/%s/%s" % (sources[d]["mode"], k, "tsan" if tsan else "plain"))
+                             cls="%s/%s/%s%s" % (sources[d]["mode"], k, "tsan" if tsan else "plain", "/private-config" if label.startswith("C") else ""))
                     for f in fac:
                         ctx.hist["facility:" + f] = ctx.hist.get("facility:" + f, 0) + 1
                     if jr is not None and jr["rc"] != 0:
@@ -492,19 +498,19 @@ def run(ctx):
                 for label, jobs in ch["runs"]:
                     for j in jobs:
                         s, d, _ = j.split(":")
-                        lines = decl_lines(sheets, sources, [s], [d]) + [run_line("x", [j], nt, rd)]
+                        lines = decl_lines(sheets, sources, [s], [d]) + [run_line(xl(label), [j], nt, rd)]
                         o2, e2, rc2 = run_harness(h_tsan if tsan else h_plain, lines, work, tsan, tag + "_crash")
                         if rc2 != 0:
-                            culprit = (j, e2, rc2)
+                            culprit = (j, e2, rc2, label)
                             break
                     if culprit:
                         break
                 if culprit:
-                    j, e2, rc2 = culprit
+                    j, e2, rc2, _lab = culprit
                     s, d, k = j.split(":")
                     ctx.fail("crash:%s:%s:%s facilities=%s" % (sources[d]["mode"], sources[d]["flavour"], k, ",".join(sorted(sheets[s]["facilities"]))),
                              "harness died (rc=%s) while %d threads shared the objects: %s" % (rc2, nt, e2[-1500:]),
-                             case_input(sheets, sources, run_line("x", [j], nt, rd), [j], work), build="tsan" if tsan else "plain")
+                             case_input(sheets, sources, run_line(xl(culprit[3]), [j], nt, rd), [j], work), build="tsan" if tsan else "plain")
                 else:
                     ctx.oblige("harness exits cleanly (chunk %s)" % ch["runs"][0][0], "machinery", False, "rc=%s %s" % (ch["rc"], ch["err"][-1500:]))
             if not reps:
@@ -525,7 +531,7 @@ def run(ctx):
                 # shrinking costs one harness run per job: do it for the first few distinct reports only
                 for label, jobs in (ch["runs"] if len(seen_keys) < 3 else []):
                     for j in jobs:
-                        reps2, o2, e2, rc2 = single_job_reports(j, nt, rd, tag + "_shrink")
+                        reps2, o2, e2, rc2 = single_job_reports(j, nt, rd, tag + "_shrink", label)
                         for r2 in reps2:
                             if report_key(r2)[0] == k:
                                 found = (label, j, r2)
@@ -537,7 +543,7 @@ def run(ctx):
                 modes = sorted(set(sources[j.split(":")[1]]["mode"] for _, js in ch["runs"] for j in js))
                 if found:
                     label, j, r2 = found
-                    inp = case_input(sheets, sources, run_line("x", [j], nt, rd), [j], work)
+                    inp = case_input(sheets, sources, run_line(xl(label), [j], nt, rd), [j], work)
                     rep = r2
                     modes = [sources[j.split(":")[1]]["mode"]]
                 else:
